@@ -1,15 +1,16 @@
 SPECIFICATION Spec
 CONSTANTS
   Canon <- MCCanon4
-  Fork <- MCNoFork
+  Fork <- MCFork
   Info <- MCInfo
   Genesis = "g"
   Batch = 2
   Confirmations = 1
   CountMerges = TRUE
-  MaxFaults = 2
+  MaxFaults = 3
   MaxCnt = 4
-  Concurrent = FALSE
+  HCAhead = FALSE
+  Concurrent = TRUE
   MaxLag = 1
 CONSTRAINT StateConstraint
 INVARIANTS TypeOK RoundMapCanonical LFBCanonical RestartPossible LFBPersisted OnlyFinalizedStored CountAtLeast CountMultiple
